@@ -72,7 +72,10 @@ pub fn cmd_record(args: &[String]) -> i32 {
         let prior: Option<(String, bool)> = if i % 2 == 1 {
             let n = 4 + g.rng.below(8);
             let by_eval = g.rng.chance(1, 2);
-            Some((g.program(n), by_eval))
+            let mut p = g.program(n);
+            // now and then the earlier source is rejected at build time after part of it was compiled, or it is single-stepped
+            match g.rng.below(6) { 0 => p.push_str(" no-such-word 5"), 1 => p = format!("STEP {} 1 0 / 7", p), 2 => p = format!("STEP {}", p), _ => {} }
+            Some((p, by_eval))
         } else { None };
         let mut obs_all = vec![];
         for (drive, rec, name) in MODES.iter() {
